@@ -133,6 +133,9 @@ structure CEntry where
   text : Nat
   tok : Int
   k : Option Int
+  /-- the part of the key's context digest (`_t2_turn_key_context`, fix C05_turn_key_context) that varies between the
+  turns of a skeleton history: the agent (stub stages: no T1 deltas, no store, no memory index) -/
+  agent : Int
   deriving DecidableEq, Repr
 
 def wallHit (cfg : Cfg) (ms : Int) : Bool :=
@@ -174,11 +177,11 @@ def yieldRecs (cfg : Cfg) (t : TurnIn) (reason stage : Nat) (elapsed : Int) (con
     { stream := .turn, ident := [t.turn, t.agent] ++ summary ++ [(reason : Int)],
       durs := some durs, yielded := some true, sliceIdx := some t.slice, now := nowOf cfg t } ]
 
-def cacheFind (c : List CEntry) (ver text : Nat) : Option CEntry :=
-  c.find? (fun e => e.ver == ver && e.text == text)
+def cacheFind (c : List CEntry) (ver text : Nat) (agent : Int) : Option CEntry :=
+  c.find? (fun e => e.ver == ver && e.text == text && e.agent == agent)
 
-def cacheDrop (c : List CEntry) (ver text : Nat) : List CEntry :=
-  c.filter (fun e => !(e.ver == ver && e.text == text))
+def cacheDrop (c : List CEntry) (ver text : Nat) (agent : Int) : List CEntry :=
+  c.filter (fun e => !(e.ver == ver && e.text == text && e.agent == agent))
 
 structure T2Res where
   tok : Int
@@ -190,12 +193,12 @@ structure T2Res where
 def t2Step (cfg : Cfg) (d : Dec) (t : TurnIn) (c : List CEntry) : T2Res :=
   if !cfg.cacheOn then ⟨t.t2Tok, t.t2K, false, c⟩
   else
-    match cacheFind c t.ver t.text with
+    match cacheFind c t.ver t.text t.agent with
     | some e =>
       if cfg.ttl != 0 && decide (cfg.ttl < d.age) then
-        ⟨t.t2Tok, t.t2K, false, cacheDrop c t.ver t.text ++ [⟨t.ver, t.text, t.t2Tok, t.t2K⟩]⟩
-      else ⟨e.tok, e.k, true, cacheDrop c t.ver t.text ++ [e]⟩
-    | none => ⟨t.t2Tok, t.t2K, false, c ++ [⟨t.ver, t.text, t.t2Tok, t.t2K⟩]⟩
+        ⟨t.t2Tok, t.t2K, false, cacheDrop c t.ver t.text t.agent ++ [⟨t.ver, t.text, t.t2Tok, t.t2K, t.agent⟩]⟩
+      else ⟨e.tok, e.k, true, cacheDrop c t.ver t.text t.agent ++ [e]⟩
+    | none => ⟨t.t2Tok, t.t2K, false, c ++ [⟨t.ver, t.text, t.t2Tok, t.t2K, t.agent⟩]⟩
 
 structure Out where
   recs : List Rec
